@@ -234,6 +234,9 @@ func GenC15(seed, index uint64) *Workload {
 		{Kind: simrt.PolNative},
 	}
 	w.Sched = simrt.Schedule{Kind: simrt.StratExplicit, Seed: r.U64()}
+	if r.P(1, 30) {
+		w.Note = "gc-between"
+	}
 	return w
 }
 
